@@ -206,6 +206,8 @@ def facts : Facts := {
   depthZeroTests := 2
   allocAfterSizeCheck := true
   allocSitesSized := 6
+  typedAllocOK := true
+  typedAllocSites := 6
   topLevelUsesLimit := true
   createLocksRechecksBuildsPublishes := true
   getIsReadOnly := true
